@@ -69,6 +69,23 @@ def r1(ctx):
             else:
                 for cb, ct in k2.call_sites(P, key, f):
                     mates.append((f, bi, vn, ops, (cb, ct)))
+    # ... or in a method of the Policy trait, implemented per colour (static dispatch instead of a match on P::COLOR)
+    by_impl = {}
+    for f in sorted(k2.private_closure(P, key)):
+        if "{closure" in f:
+            continue
+        for cb, ct in P.calls(f):
+            fr = ct["f"]
+            if fr.get("k") == "fnref" and fr.get("decl", fr.get("fn", "")).startswith(ENG + "Policy::") and f == key:
+                meth = fr.get("decl", fr["fn"]).rsplit("::", 1)[1]
+                for pol in ("White", "Black"):
+                    ik = f"<{ENG}{pol} as {ENG}Policy>::{meth}"
+                    if ik in P.fns:
+                        for bi, vn, ops in score_returns(P, ik):
+                            if vn in ("BlackMateIn", "WhiteMateIn"):
+                                mates.append((ik, bi, vn, ops, (cb, ct)))
+                                cv = T.Engine(P).eval_closed(T.State(), f"<{ENG}{pol} as {ENG}Policy>::COLOR")
+                                by_impl[(ik, bi)] = cv[2] if cv and cv[0] == "adt" else None
     ctx.floor("mate-score sites reachable in alphabeta", len(mates), 2)
     want_color = {"BlackMateIn": "White", "WhiteMateIn": "Black"}
     for f, bi, vn, ops, cs in mates:
@@ -82,7 +99,7 @@ def r1(ctx):
             ops = [pmap.get(o, o) for o in ops]
         no_moves = calls.get(IS_EMPTY, (None,))[0] is True
         in_check = calls.get(IN_CHECK, (None,))[0] is True
-        color = k2.assoc_enum_guard(P, g, "<P as chess_engine::Policy>::COLOR", COLOR_T, key=f)
+        color = by_impl[(f, bi)] if (f, bi) in by_impl else k2.assoc_enum_guard(P, g, "<P as chess_engine::Policy>::COLOR", COLOR_T, key=f)
         payload_ok = ops == [depth_place]
         tag = vn if f == key else f"{vn} via {T.short(f)}"
         ctx.ob(f"{vn} guards", no_moves and in_check, f"Score::{tag} is returned under guards {[(T.short(c), v[0]) for c, v in calls.items()]}; a mate requires no legal move AND in check",
@@ -137,7 +154,20 @@ def r2(ctx):
     # the ABI decoder (its table is C16.R3) and private helpers only it calls
     dec = "chess_api::EvaluatedMove::score"
     dec_helpers = {f for f in k2.private_closure(P, dec) if f != dec and "{closure" not in f and {c for c, _ in callers.get(f, [])} <= {dec}} if dec in P.fns else set()   # chess_api is absent from single-package configurations
-    allowed = {ab, dec} | helpers | dec_helpers
+    # methods of the Policy trait that alphabeta (and nobody else) calls: checked per implementation by R1
+    pol_methods = set()
+    for f in k2.private_closure(P, ab):
+        for _, ct in P.calls(f):
+            d_ = ct["f"].get("decl", "") if ct["f"].get("k") == "fnref" else ""
+            if d_.startswith(ENG + "Policy::") and f == ab:
+                pol_methods.add(d_.rsplit("::", 1)[1])
+    for k_ in P.fns:
+        for _, ct in (P.calls(k_) if k_ not in k2.private_closure(P, ab) and P.fns[k_]["crate"] in ("chess_engine", "chess_api", "chess_bot") else []):
+            d_ = ct["f"].get("decl", "") if ct["f"].get("k") == "fnref" else ""
+            if d_.startswith(ENG + "Policy::"):
+                pol_methods.discard(d_.rsplit("::", 1)[1])
+    impl_methods = {f"<{ENG}{pol} as {ENG}Policy>::{m_}" for pol in ("White", "Black") for m_ in pol_methods}
+    allowed = {ab, dec} | helpers | dec_helpers | impl_methods
     bad = {}
     for k, sites in cons.items():
         mate = [s for s in sites if s[1] in ("BlackMateIn", "WhiteMateIn")]
